@@ -70,6 +70,26 @@ def rsSplitOn (c : Nat) : List Nat → List (List Nat)
       | [] => [[x]]
       | p :: ps => (x :: p) :: ps
 
+/-- `xs.zip(ys.chain(repeat(pad)))` -/
+def rsZipPad {α β} : List α → List β → β → List (α × β)
+  | [], _, _ => []
+  | x :: xs, [], pad => (x, pad) :: rsZipPad xs [] pad
+  | x :: xs, y :: ys, pad => (x, y) :: rsZipPad xs ys pad
+
+/-- `v.resize(n, x)` -/
+def rsResize {α} (xs : List α) (n : Nat) (x : α) : List α :=
+  if n ≤ xs.length then xs.take n else xs ++ List.replicate (n - xs.length) x
+
+/-- `bits[a..b].store_le::<u8>(v)` on a `BitVec<u8, Lsb0>`: bit `i` of `v` goes to position `a + i`.
+bitvec panics on an empty or over-wide (> 8 bit) region, and the slicing panics unless `a ≤ b ≤ len`. -/
+def rsStoreLe (bits : List Bool) (a b v : Nat) : Res (List Bool) :=
+  if a < b ∧ b ≤ bits.length ∧ b - a ≤ 8 then
+    .ok (bits.take a ++ (List.range (b - a)).map (fun i => v.testBit i) ++ bits.drop b)
+  else .error .panic
+
+/-- lexicographic `<` on pairs, the `Ord` of `(u32, u32)` -/
+def ltPair (a b : Nat × Nat) : Bool := decide (a.1 < b.1 ∨ (a.1 = b.1 ∧ a.2 < b.2))
+
 /-- outcome of a loop body that may `return` from the enclosing function -/
 inductive Exit (ρ σ : Type) where
   | done (s : σ)   -- the loop ended (exhausted or `break`), final values of the mutated variables
